@@ -10,6 +10,7 @@ pub mod mutate;
 pub mod proto;
 pub mod rng;
 pub mod suite;
+pub mod wire;
 
 pub mod props;
 
